@@ -681,6 +681,7 @@ func NewPeerFromConfigStruct(pconf *Neighbor) *api.Peer {
 			RemotePort:    uint32(pconf.Transport.Config.RemotePort),
 			LocalPort:     uint32(pconf.Transport.Config.LocalPort),
 			LocalAddress:  localAddress.String(),
+			MtuDiscovery:  pconf.Transport.Config.MtuDiscovery,
 			PassiveMode:   pconf.Transport.Config.PassiveMode,
 			BindInterface: pconf.Transport.Config.BindInterface,
 			TcpMss:        uint32(pconf.Transport.Config.TcpMss),
